@@ -368,6 +368,40 @@ def multiline_family(rng, n):
         out.append(rng.choice(["", "", " ", "\n", ";"]).join(parts))
     return out
 
+
+# ----------------------------------------------------------------------------- error family (C09, C03, C04)
+
+ERR_TRIGGERS = [
+    "'abc", "\"abc", "\"a&b", "/* c", "datalines;\n1 2", "cards4;\nx;", "1e", "1.5e+", "0ffg", "1x2", "0ffx1", "9z",
+    "%eval(1", "%m(a", "%str(a", "%sysfunc(f(a)", "%eval((1)", "%let a 1;", "%do i 1 %to 2;", "%eval 1;", "%scan a;", "%substr(a);",
+    "%scan(a);", "%copy m s;", "%copy m;", "%end a;", "%return x;", "%do %while(1) x;", "%until(1)", "%let 1a=1;", "%let =1;",
+    "%local 1 a;", "%global (a);", "%local / readonly a=1;", "%global / a;", "%local / x;", "%macro 1m;", "%macro;", "%macro m(1a);",
+    "%macro m(a,,b);", "%macro m(a=1,=2);", "%do i=1; %to 2;", "%do i=1 %to 2 %by;", "%put \"%let v=1;\";", "%let a=\"%put x;\";",
+    "%put \"a%do;b\";", "%if \"%let a=1;\" %then;", "%m(\"%let a=1;\")", "'zz'x", "\"0g\"x", "'0 1'x", "\"1\"x", "%sysfunc();",
+    "%sysfunc(,a)", "%qsysfunc( );", "%syscall ;", "%syscall();", "%syscall (a);", "%sysfunc(f(a) b)", "%sysevalf(1,", "%m(a=(", "%nrstr(%",
+    "%let a=%str(;", "%macro m/des='x;", "%goto ;", "%lbl", "%if 1 %then", "%do;", "%mend", "%put a", "%include", "&a&(", "%*c",
+]
+ERR_PREFIX = ["", "", "﻿", "é", "/* é */\n", "🔥;", "x='ß'; ", "%put é;", " ", "é\n", "中 ", "%let a=é;\n", "'é'n=1;"]
+ERR_INFIX = ["", "", "", "é", " ", "\n", "🔥", "/*ü*/"]
+
+
+def err_family(rng, n):
+    out = []
+    for pre in ERR_PREFIX:
+        for t in ERR_TRIGGERS:
+            out.append(pre + t)
+    for _ in range(n):
+        parts = [rng.choice(ERR_PREFIX)]
+        for _ in range(rng.randint(1, 3)):
+            t = rng.choice(ERR_TRIGGERS)
+            if rng.random() < 0.4 and len(t) > 2:       # a multi-byte character inside the construct
+                k = rng.randint(1, len(t) - 1)
+                t = t[:k] + rng.choice(ERR_INFIX) + t[k:]
+            parts.append(t)
+            parts.append(rng.choice(["", " ", ";", "\n", "; "]))
+        out.append("".join(parts))
+    return out
+
 # ----------------------------------------------------------------------------- C18 family
 
 SEP_STATS = ["%let a=1;", "%put x;", "%if 1 %then", "%else", "%do;", "%end;", "%macro m;", "%mend;", "%global g;",
